@@ -152,7 +152,9 @@ class JsonDocument(HierDictDocument):
     def validate(self, key, cls, val):
         super(JsonDocument, self).validate(key, cls, val)
 
-        if issubclass(cls, (DateTime, Date, Time)) and not (
+        # null is not a malformed date: whether it's acceptable is decided by
+        # the nillable attribute in validate_native, like for every other type
+        if val is not None and issubclass(cls, (DateTime, Date, Time)) and not (
                                     isinstance(val, six.string_types) and
                                                  cls.validate_string(cls, val)):
             raise ValidationError(key, val)
